@@ -88,6 +88,8 @@ class BBUnitaryChecker(ast.NodeVisitor):
         self._check_call(node, func.ty)
 
     def visit_LocalCall(self, node: LocalCall) -> None:
+        # The callee is an arbitrary expression that may itself contain calls
+        self.visit(node.func)
         func = get_type(node.func)
         assert isinstance(func, FunctionType)
         self._check_call(node, func)
